@@ -223,7 +223,7 @@ class Cases:
         self.ctx = ctx
         self.rows = []
 
-    def add(self, kind, line, impl, ref=None, args=None, expect=None):
+    def add(self, kind, line, impl, ref=None, args=None, expect=None, signature=None):
         case = {"kind": kind, "line": line}
         if args is not None:
             case["args"] = args
@@ -234,7 +234,7 @@ class Cases:
                                "known-answer:" + kind, {"impl": impl, "expected": expect})
         if ref is not None and impl != ref:
             self.ctx.violation("derivation differs from the specification's formula (hashlib reference)", case,
-                               "spec-mismatch:" + kind, {"impl": impl, "spec": ref})
+                               signature or ("spec-mismatch:" + kind), {"impl": impl, "spec": ref})
         toks = line.split(" ")
         op = toks[0]
         bargs = {"conv": toks[4:], "convtag": toks[4:], "th": toks[1:3], "tph": toks[1:4], "hasher": toks[1:2] + toks[3:],
@@ -792,8 +792,196 @@ def run_pool_history(ctx, cs, H):
         cs.add("history " + name, line, impl, ref, args={"history": H, "step": step})
 
 
+# --- secrets at the point of USE, on an in-process grid --------------------------------------------
+#
+# Real _Client / Uploader / Checker / Repairer / mutable Publish against real StorageServers (harness/grid.py).  Every
+# allocate_buckets / add_lease / slot_testv_and_readv_and_writev call is recorded at the server it arrives at, and the
+# renew secret, cancel secret and write enabler it carries are compared with the specification's value for
+# (the client's private/secret, the storage index or write key, THAT server's lease seed / write-enabler seed).
+# Some servers are read-only / full / advertise a tiny maximum-immutable-share-size, at varying places of the permuted
+# order (several storage indexes per grid).  Each server stand-in has a lease seed and a write-enabler seed that differ
+# from each other and from its server id, so a secret derived from the wrong accessor or the wrong server shows.
+
+def make_grid_scenario(rng):
+    ns = rng.randrange(4, 9)
+    kinds = {}
+    nlim = rng.choice([0, 1, 1, 1, 2, 2, 3])
+    for i in rng.sample(range(ns), min(nlim, ns - 2)):
+        kinds[str(i)] = rng.choice(["readonly", "full", "small"])
+    n = rng.randrange(max(3, (ns + 1) // 2), 11)
+    k = rng.randrange(1, min(3, n) + 1)
+    files = [{"data": _h(rbytes(rng, rng.choice([56, 200, 700, 3000]))), "conv": _h(rbytes(rng, 16))}
+             for _ in range(rng.choice([2, 3, 4]))]
+    return {"type": "grid", "seed": rng.randrange(10 ** 6), "servers": ns, "limited": kinds, "k": k, "n": n,
+            "files": files, "repair": rng.random() < 0.6, "mutable": rng.random() < 0.7, "mdmf": rng.random() < 0.3,
+            "mkey": rng.randrange(3), "seeds": [[_h(rbytes(rng, 20)), _h(rbytes(rng, 20))] for _ in range(ns)]}
+
+
+def run_grid_scenario(ctx, cs, S):
+    import os
+    import grid
+    from allmydata.immutable import upload
+    from allmydata.monitor import Monitor
+    from allmydata.mutable.publish import MutableData
+    from allmydata.storage.immutable import ShareFile
+    from allmydata.storage.mutable import MutableShareFile
+    from allmydata.interfaces import MDMF_VERSION, SDMF_VERSION
+    from allmydata import uri
+    from props import _mutable_common
+    basedir = grid.fresh_dir("c17use")
+    V1 = b"http://allmydata.org/tahoe/protocols/storage/v1"
+    try:
+        with grid.Runtime(seed=S["seed"], policy="fifo") as rt:
+            g = grid.Grid(basedir, rt, num_servers=0, num_clients=0, k=S["k"], happy=1, n=S["n"])
+            lease_seed, we_seed = {}, {}
+            for i in range(S["servers"]):
+                kind = S["limited"].get(str(i))
+                gs = g.add_server(i, readonly=(kind == "readonly"), reserved_space=(10 ** 18 if kind == "full" else 0))
+                if kind == "small":
+                    g.wrappers[i].version[V1][b"maximum-immutable-share-size"] = 10
+                lease_seed[i], we_seed[i] = _u(S["seeds"][i][0]), _u(S["seeds"][i][1])
+                gs.get_lease_seed = (lambda v=lease_seed[i]: v)
+                gs.get_foolscap_write_enabler_seed = (lambda v=we_seed[i]: v)
+            c = g.make_client(0, S["k"], 1, S["n"], 128, b"\x00" * 16)
+            g.clients.append(c)
+            with open(os.path.join(basedir, "clients", "00", "private", "secret"), "rb") as f:
+                master = unb32(f.read().strip())
+            seen = []
+
+            def spy(i):
+                def _fault(methname, args, kwargs):
+                    if methname in ("allocate_buckets", "add_lease"):
+                        seen.append((i, methname, args[0], None, args[1], args[2]))
+                    elif methname == "slot_testv_and_readv_and_writev":
+                        we, rs, cns = args[1]
+                        seen.append((i, methname, args[0], we, rs, cns))
+                    return None
+                return _fault
+            for i, w in g.wrappers.items():
+                w.fault = spy(i)
+
+            def audit(op, si_expected, writekey=None):
+                for (i, meth, si, we, rs, cns) in seen:
+                    args = {"history": S, "step": op, "server": i, "method": meth}
+                    what = "use %s:%s" % (op, meth)
+                    cs.add(what + " renew", "renew %s %s %s" % (hx(master), hx(si), hx(lease_seed[i])),
+                           hx(rs) if si == si_expected else "wrong-si", guard(r_renew, master, si_expected, lease_seed[i]),
+                           args=args, signature="secret-at-use-differs:%s:renew" % op)
+                    cs.add(what + " cancel", "cancel %s %s %s" % (hx(master), hx(si), hx(lease_seed[i])),
+                           hx(cns) if si == si_expected else "wrong-si", guard(r_cancel, master, si_expected, lease_seed[i]),
+                           args=args, signature="secret-at-use-differs:%s:cancel" % op)
+                    if we is not None:
+                        cs.add(what + " write-enabler", "f2 ssk_write_enabler_hash %s %s" % (hx(writekey), hx(we_seed[i])),
+                               hx(we), guard(_r_we, writekey, we_seed[i]), args=args,
+                               signature="secret-at-use-differs:%s:write-enabler" % op)
+                ctx.count("use:%s calls" % op, len(seen))
+                del seen[:]
+
+            def leases_on_disk(op, si, mutable, exactly_one):
+                """every share's leases: renewable with the spec secret for its server; optionally exactly one lease"""
+                for (i, shnum, path) in g.share_files(si):
+                    leases = list((MutableShareFile(path) if mutable else ShareFile(path)).get_leases())
+                    want_r = r_renew(master, si, lease_seed[i])
+                    want_c = r_cancel(master, si, lease_seed[i])
+                    case = {"kind": "use %s lease on disk" % op, "line": "renew %s %s %s" % (hx(master), hx(si), hx(lease_seed[i])),
+                            "args": {"history": S, "step": op, "server": i, "shnum": shnum}}
+                    ctx.case(("lease-on-disk", op, si, i, shnum))
+                    if not any(l.is_renew_secret(want_r) and l.is_cancel_secret(want_c) for l in leases):
+                        ctx.violation("no lease on the share carries the specification's renew/cancel secret for its server "
+                                      "(the client cannot renew the lease it created)", case,
+                                      "lease-not-renewable-with-spec-secret:" + op,
+                                      {"leases": [str(l.present_renew_secret()) for l in leases], "spec": hx(want_r)})
+                    if exactly_one and len(leases) != 1:
+                        ctx.violation("renewing through add-lease did not renew the client's lease but added another one",
+                                      case, "lease-count-after-add-lease:" + op, {"leases": len(leases)})
+
+            def deletable(shares, stride):
+                """every stride-th share file, but never so many that fewer than k distinct share numbers remain"""
+                out, remaining = [], [sh for (_i, sh, _p) in shares]
+                for (i, shnum, path) in shares[::stride]:
+                    rest = list(remaining)
+                    rest.remove(shnum)
+                    if len(set(rest)) >= S["k"]:
+                        remaining = rest
+                        out.append(path)
+                return out
+
+            def position_stats(si):
+                order = [s.get_serverid() for s in g.broker.get_servers_for_psi(si)]
+                idx = {g.serverid(j): j for j in g.servers}
+                order = [idx[sid] for sid in order]
+                for j in S["limited"]:
+                    p = order.index(int(j))
+                    ctx.count("use:limited server %s in permuted order" % ("first" if p == 0 else "last" if p == len(order) - 1 else "middle"))
+
+            for fno, f in enumerate(S["files"]):
+                res = rt.wait(c.upload(upload.Data(_u(f["data"]), convergence=_u(f["conv"]))))
+                cap = uri.from_string(res.get_uri())
+                si = cap.get_storage_index()
+                position_stats(si)
+                cs.add("use upload storage index", "chk " + hx(cap.key), hx(si), hx(REF1["storage_index_hash"](cap.key)),
+                       args={"history": S, "step": "upload"})
+                audit("upload", si)
+                leases_on_disk("upload", si, False, True)
+                node = c.create_node_from_uri(res.get_uri())
+                rt.wait(node.check(Monitor(), verify=False, add_lease=True))
+                audit("check-add-lease", si)
+                leases_on_disk("check-add-lease", si, False, True)
+                if S["repair"] and fno % 2 == 0:
+                    for path in deletable(g.share_files(si), 2):
+                        os.unlink(path)
+                    rt.wait(node.check_and_repair(Monitor(), verify=False, add_lease=True))
+                    audit("repair", si)
+                    leases_on_disk("repair", si, False, False)
+                    rt.wait(node.check(Monitor(), verify=False, add_lease=True))
+                    audit("check-add-lease", si)
+                    leases_on_disk("check-add-lease-after-repair", si, False, True)
+
+            if S["mutable"]:
+                ver = MDMF_VERSION if S["mdmf"] else SDMF_VERSION
+                mn = rt.wait(c.create_mutable_file(MutableData(b"C17 mutable contents " * 7), version=ver,
+                                                   unique_keypair=_mutable_common.keypair(S["mkey"])))
+                wk, msi = mn.get_writekey(), mn.get_storage_index()
+                cs.add("use mutable storage index", "wcap " + hx(wk),
+                       ":".join(hx(x) for x in (mn.get_readkey(), msi, mn.get_readkey(), msi, msi, msi)),
+                       ":".join(hx(x) for x in (REF1["ssk_readkey_hash"](wk),) + (REF1["ssk_storage_index_hash"](REF1["ssk_readkey_hash"](wk)),) * 1
+                                + (REF1["ssk_readkey_hash"](wk),) + (REF1["ssk_storage_index_hash"](REF1["ssk_readkey_hash"](wk)),) * 3),
+                       args={"history": S, "step": "mutable-create"})
+                audit("mutable-create", msi, wk)
+                leases_on_disk("mutable-create", msi, True, True)
+                rt.wait(mn.overwrite(MutableData(b"second version " * 11)))
+                audit("mutable-publish", msi, wk)
+                leases_on_disk("mutable-publish", msi, True, True)
+                rt.wait(mn.check(Monitor(), verify=False, add_lease=True))
+                audit("mutable-check-add-lease", msi, wk)
+                leases_on_disk("mutable-check-add-lease", msi, True, True)
+                if S["repair"]:
+                    for path in deletable(g.share_files(msi), 3):
+                        os.unlink(path)
+                    rt.wait(mn.check_and_repair(Monitor(), verify=False, add_lease=True))
+                    audit("mutable-repair", msi, wk)
+                    leases_on_disk("mutable-repair", msi, True, False)
+            g.close()
+    finally:
+        import shutil
+        shutil.rmtree(basedir, ignore_errors=True)
+
+
+def gen_grid_use(ctx, cs, n):
+    for i in range(n):
+        S = make_grid_scenario(ctx.rng)
+        if i == 0:   # always one grid whose limited server is in the middle of the list of a 6-server grid
+            S["servers"], S["limited"], S["n"], S["k"] = 6, {"2": "readonly"}, 5, 2
+            S["seeds"] = S["seeds"][:6] + [[_h(rbytes(ctx.rng, 20)), _h(rbytes(ctx.rng, 20))] for _ in range(6 - len(S["seeds"][:6]))]
+            while len(S["files"]) < 4:
+                S["files"].append({"data": _h(rbytes(ctx.rng, 300)), "conv": _h(rbytes(ctx.rng, 16))})
+        attempt(ctx, "grid secrets at use", lambda: run_grid_scenario(ctx, cs, S))
+        ctx.count("use:grid scenarios")
+        ctx.count("use:grids with %d limited servers" % len(S["limited"]))
+
+
 HISTORY_RUNNERS = {"objects": run_object_history, "selector": run_selector_history, "dirnode": run_dirnode_history,
-                   "pool": run_pool_history}
+                   "pool": run_pool_history, "grid": run_grid_scenario}
 
 
 def gen_histories(ctx, cs, n):
@@ -893,6 +1081,7 @@ def run(ctx):
              ("hmac/permute", lambda: gen_untagged(ctx, cs, ctx.budget(100, 3000))),
              ("call sites", lambda: gen_callsites(ctx, cs, ctx.budget(120, 3000))),
              ("call-site histories", lambda: gen_histories(ctx, cs, ctx.budget(40, 1200))),
+             ("secrets at the point of use (in-process grid)", lambda: gen_grid_use(ctx, cs, ctx.budget(8, 150))),
              ("derive_mutable_keys", lambda: gen_mutable_keys(ctx, cs, ctx.budget(2, 12)))]
     for label, f in steps:
         attempt(ctx, label, f)
